@@ -26,6 +26,7 @@ type ctx struct {
 	imports  map[string]bool // names of imported packages in this file
 	recv     string          // name of the method receiver
 	conds    bool            // render if-conditions
+	locals   map[string]bool // local closures whose bodies take part in the protocol
 }
 
 func (c *ctx) rename(root string) string {
@@ -97,6 +98,8 @@ func (c *ctx) call(call *ast.CallExpr) (string, bool) {
 		switch {
 		case id.Name == "close":
 			return "(Close " + c.operand(call.Args[0]) + ")", true
+		case c.locals[id.Name]:
+			return "(CallLocal " + id.Name + ")", true
 		case c.pkgFuncs[id.Name]:
 			return "(Call " + id.Name + c.closureArgs(call) + ")", true
 		}
@@ -209,6 +212,19 @@ func (c *ctx) stmt(s ast.Stmt) string {
 	case *ast.AssignStmt:
 		out := ""
 		for i, r := range s.Rhs {
+			// a closure kept in a variable: its body is part of the protocol wherever it is called
+			if fl, ok := r.(*ast.FuncLit); ok && i < len(s.Lhs) {
+				if id, ok := s.Lhs[i].(*ast.Ident); ok {
+					if body := c.stmts(fl.Body.List); body != "" {
+						if c.locals == nil {
+							c.locals = map[string]bool{}
+						}
+						c.locals[id.Name] = true
+						out += "(Closure " + id.Name + " {" + body + "})"
+					}
+					continue
+				}
+			}
 			if call, ok := r.(*ast.CallExpr); ok {
 				if id, ok := call.Fun.(*ast.Ident); ok && id.Name == "make" && len(call.Args) >= 1 {
 					if _, ok := call.Args[0].(*ast.ChanType); ok {
@@ -332,7 +348,6 @@ type target struct {
 	file, recvType, fn string
 	conds              bool
 }
-
 
 // writeSet lists, sorted and de-duplicated, the stores of a function that go through something
 // other than a plain local variable: "P:" through a parameter or the receiver, "L:" through a
@@ -464,6 +479,8 @@ func main() {
 		{"http.go", "Gateway", "GraphQLHandler", false}, {"http.go", "Gateway", "setResultFunc", false}, {"http.go", "Gateway", "executeRequest", false},
 		{"cache.go", "AutomaticQueryPlanCache", "Retrieve", true},
 		{"gateway.go", "Gateway", "Execute", false},
+		{"execute.go", "", "executorExtractValue", false}, {"execute.go", "", "executorInsertObject", false},
+		{"execute.go", "", "executorFindInsertionPoints", false}, {"middlewares.go", "", "scrubInsertionIDs", false},
 	}
 	var out strings.Builder
 	out.WriteString("(* GENERATED by /verif/translator from the working tree of nautilus/gateway; do not edit. *)\n")
